@@ -34,6 +34,7 @@ def case_grid(tier, seed, which):
     add("trunc", 6, 2, 1400, 11, 100, 15, 3, n=rep)
     add("trunc", 5, 2, 1600, 12, 150, 18, 2, mode="single", n=rep)
     add("reorder", 6, 3, 900, 11, 100, 15, 4, n=rep)
+    add("tandem", 3, 2, 2000, 11, 100, 15, 4, n=rep)                      # low-complexity blocks: plain-stored next to tuple-packed references
     add("basic", 3, 3, 1000, 11, 100, 15, 3, mode="single", n=rep)
     add("basic", 4, 3, 800, 11, 100, 15, 4, mode="single", lpack=3, clevel=3, n=rep)   # -l 3: a synchronisation round every 3 contigs; -c 3
     add("dup", 4, 2, 1000, 10, 80, 15, 2, lpack=2, clevel=19, via="lib", n=rep)
